@@ -261,7 +261,9 @@ class SimPipeline:
                 if s['star']:
                     a += ';*'
                 elif not s['all']:
-                    a += ';' + ';'.join(x if x == y else f'{x}>{y}' for x, y in s['tmap']) if s['tmap'] else ';'
+                    # the documented short forms: 'a>' = received as 'main', '>b' = 'main' received as b
+                    a += ';' + ';'.join(x if x == y else f'{x}>' if y == 'main' else f'>{y}' if x == 'main' else f'{x}>{y}'
+                                        for x, y in s['tmap']) if s['tmap'] else ';'
                 srcs.append(a)
             cfg['sources'] = srcs
             if d['srcbal']:
